@@ -217,6 +217,16 @@ func (c *Core) forward(bp BundleDescriptor) {
 		}
 	}
 
+	// A bundle loaded from the store for a later (re)transmission still carries the unsupported blocks which asked to
+	// be removed; remove them again.
+	for i := len(bp.MustBundle().CanonicalBlocks) - 1; i >= 0; i-- {
+		if cb := &bp.MustBundle().CanonicalBlocks[i]; !bpv7.GetExtensionBlockManager().IsKnown(cb.TypeCode()) &&
+			cb.BlockControlFlags.Has(bpv7.RemoveBlock) {
+			bp.MustBundle().CanonicalBlocks = append(
+				bp.MustBundle().CanonicalBlocks[:i], bp.MustBundle().CanonicalBlocks[i+1:]...)
+		}
+	}
+
 	if bp.MustBundle().IsLifetimeExceeded() {
 		log.WithFields(log.Fields{
 			"bundle":        bp.ID(),
